@@ -71,7 +71,9 @@ func VerifResetGlobals(withMemTree bool, tkCloseLen int) {
 	heightMtx.Lock()
 	maxBlockHeight = 0
 	heightMtx.Unlock()
-	memTree, tkCloseCache = nil, nil
+	if memTree != nil || tkCloseCache != nil { // (no write when there is nothing to reset: callers without memTree may run in parallel)
+		memTree, tkCloseCache = nil, nil
+	}
 	if withMemTree {
 		if tkCloseLen <= 0 {
 			tkCloseLen = 100
